@@ -62,9 +62,9 @@ theorem insert_returns_inserted (xs : List Int) (pos : Nat) (x : Int) (ys : List
     subst h1
     have hm : min pos xs.length = pos := by omega
     refine ⟨h2.symm, ?_, ?_, ?_, ?_⟩
-    · simp [List.getElem?_append_right, hm]
+    · simp [hm]
     · simp; omega
-    · simp [List.take_append, hm]
+    · simp [hm]
     · simp [List.drop_append, hm]
   · simp [c] at h
 
@@ -297,8 +297,8 @@ theorem reserve_policy (s : AState) (n : Nat) :
     by_cases c : n > cap ∨ n > 0
     · have c' : n > cap ∨ (True ∧ n > 0) := by simpa using c
       by_cases c2 : n > cap
-      · simp [c, c2, or3, AState.elems, Nat.max_eq_left (Nat.le_of_lt c2)]
-      · simp [c, c2, or3, AState.elems, Nat.max_eq_right (Nat.le_of_not_lt c2)]
+      · simp [c2, or3, AState.elems, Nat.max_eq_left (Nat.le_of_lt c2)]
+      · simp [c2, or3, AState.elems, Nat.max_eq_right (Nat.le_of_not_lt c2)]
     · simp [c]
   | some es =>
     by_cases c : n > cap
